@@ -8,7 +8,9 @@ LEVEL = 'exploration'
 TECHNIQUE = ('model-based stateful testing: Hypothesis-generated call histories (valid by '
              'construction, fill-then-thin prefixes, tiny node sizes) executed against a reference '
              'sorted map/set; every return value, exception class and the full ordered contents '
-             'compared after every call')
+             'compared after every call; plus small-scope exhaustive histories per (family, kind, implementation) '
+             'slice: every single-key operation x every key on every subset of a 5-key universe, every bulk operation '
+             'x every operand sequence of length <= 3 (all orders and repetitions) on every subset of 3 keys')
 RULE = ('a case is a configuration (family, kind, implementation, node sizes set on the class or a '
         'subclass, key type) plus a history of public calls.  Non-trivial: tree kinds - the tree '
         'reached >= 2 leaves and at least one successful removal happened; leaf kinds - >= 3 '
@@ -27,6 +29,16 @@ def shards(tier, seed):
         # every shard covers every family group over time; families rotate with the seed
         fams = F.rotate(F.FAMILIES, seed * 7 + i * 3, 6 if tier == 'quick' else 22)
         out.append({'fams': fams, 'n': n, 'max_ops': max_ops})
+    # bounded-exhaustive part: (family, kind, implementation) slices in which every operation is applied to every
+    # small state (see enum_histories); quick: 2 slices per shard rotating with the seed, thorough: all 176
+    order = [F.FAMILIES[(seed * 5 + j * 6 + j // 11) % 22] for j in range(22)]       # spread over the key types
+    order += [f for f in F.FAMILIES if f not in order]
+    seen = set()
+    order = [f for f in order if not (f in seen or seen.add(f))]
+    slices = [(f, k, i) for f in order for k in F.KINDS for i in F.IMPLS]
+    for i, sh in enumerate(out):
+        mine = slices[i::16] if tier == 'thorough' else slices[2 * i:2 * i + 2]
+        sh['enum'] = [{'fam': f, 'kind': k, 'impl': im} for f, k, im in mine]
     if tier == 'thorough':
         for fam in ('OO', 'II', 'fs'):
             for impl in ('c', 'py'):
@@ -38,7 +50,78 @@ def run_shard(shard, ctx):
     if shard.get('big'):
         return _big(shard, ctx)
     strat = H.cases(F.configs(fams=shard['fams']), max_ops=shard['max_ops'])
-    ctx.hyp(strat, run_case, shard['n'], 'hist')
+    if not ctx.hyp(strat, run_case, shard['n'], 'hist'):
+        return
+    for spec in shard.get('enum', ()):
+        n = 0
+        for case in enum_histories(spec):
+            n += 1
+            if not ctx.run_case(case, run_case):
+                return
+        ctx.count('enumerated_histories', n)
+        ctx.count('enumerated_slice:%s%s:%s' % (spec['fam'], spec['kind'], spec['impl']))
+
+
+def enum_histories(spec):
+    """Small-scope exhaustive histories for one (family, kind, implementation): node sizes 2/2 (three keys are two
+    leaves, five keys three levels).  (i) every state = subset of a 5-key universe U5 (smallest key of the family /
+    None, three neighbours, the largest key) x every single-key operation x every key of U5 + one stranger, plus
+    popitem / pop / clear / the read-only calls; (ii) every state = subset of U5[:3] x every bulk operation (update,
+    |=, &=, -=, ^=, isdisjoint) x EVERY sequence of length <= 3 over U5[:4] (all orders, all repetitions) as list and
+    as generator (mappings: update with every pair sequence of length <= 2 over 3 keys x 2 values), and the target
+    itself as operand."""
+    import itertools
+    fam, kind, impl = spec['fam'], spec['kind'], spec['impl']
+    dom = F.domain(fam, 'int')
+    mid = len(dom) // 2
+    U = [dom[0]] + dom[mid:mid + 3] + [dom[-1]]
+    stranger = dom[mid + 3]
+    is_map = F.is_map(kind)
+    cfg = {'fam': fam, 'kind': kind, 'impl': impl, 'ktype': 'int'}
+    if F.is_tree(kind):
+        cfg['sizes'] = [2, 2]
+        cfg['mode'] = 'class'
+    vt = {'O': ['v', 'w'], 'F': [0.5, 2.0], 's': [1, 2]}.get(fam[1], [1, 2])
+
+    def fill(sub):
+        return [(['set', k, vt[0]] if is_map else ['add', k]) for k in sub]
+    subsets5 = [[U[i] for i in range(5) if msk >> i & 1] for msk in range(32)]
+    reads = [['len'], ['bool'], ['list'], ['keys']] + ([['values'], ['items']] if is_map else [])
+    for sub in subsets5:
+        pre = fill(sub)
+        for k in U + [stranger]:
+            if is_map:
+                singles = [['set', k, vt[1]], ['del', k], ['setdefault', k, vt[1]], ['pop', k], ['popd', k, vt[1]],
+                           ['get', k], ['getd', k, vt[1]], ['getitem', k], ['in', k], ['has_key', k]]
+                if kind == 'BTree':
+                    singles.append(['insert', k, vt[1]])
+            else:
+                singles = [['add', k], ['remove', k], ['discard', k], ['in', k], ['has_key', k]]
+                if kind == 'TreeSet':
+                    singles.append(['insert', k])
+            for op in singles:
+                yield {'cfg': cfg, 'ops': pre + [op] + reads[2:3]}
+        for op in ([['popitem']] if is_map else [['pop']]) + [['clear']]:
+            yield {'cfg': cfg, 'ops': pre + [op, op] + reads}
+    subsets3 = [[U[i] for i in range(3) if msk >> i & 1] for msk in range(8)]
+    if is_map:
+        pairs = [[k, v] for k in U[:3] for v in vt]
+        seqs = [list(t) for n in range(3) for t in itertools.product(pairs, repeat=n)]
+        for sub in subsets3:
+            for q in seqs:
+                for form in ('pairs', 'dict', 'Bucket', 'BTree'):
+                    if form != 'pairs' and len(set(repr(p[0]) for p in q)) != len(q):
+                        continue        # a dict / container cannot hold a key twice
+                    yield {'cfg': cfg, 'ops': fill(sub) + [['update', q, form], ['items']]}
+    else:
+        seqs = [list(t) for n in range(4) for t in itertools.product(U[:4], repeat=n)]
+        for sub in subsets3:
+            for q in seqs:
+                for name in ('update', 'ior', 'iand', 'isub', 'ixor', 'isdisjoint'):
+                    for form in ('list', 'gen'):
+                        yield {'cfg': cfg, 'ops': fill(sub) + [[name, q, form], ['list']]}
+            for name in ('iand', 'isub', 'ixor'):
+                yield {'cfg': cfg, 'ops': fill(sub) + [[name, [], 'self'], ['list']]}
 
 
 def replay(case, ctx):
